@@ -421,7 +421,8 @@ def isExportedName (name : Bytes) : Bool :=
 /-- one step of member selection in `evalIdentifier` (the `node.Callee != nil` branch), on the value `c` of
     the callee — a pure function: nil has nil members; a pointer is dereferenced once; anything but a struct has
     no members; a field that holds a nil pointer is nil, a non-nil pointer field is dereferenced; an unexported
-    field is an error. (The family has no methods and no embedded structs.) -/
+    field is an error. (The family has no methods and no embedded structs; in Go a pointer field that is an
+    `HTMLer` only as a pointer is kept as a pointer since fix c29fa86 — a value outside this family.) -/
 def memberStep (c : Val) (name : Bytes) : R Val :=
   match c with
   | .nil => .ok .nil
